@@ -405,7 +405,7 @@ protected:
 	sender_comp_id _sci; // used by acceptor
 	Connection *_connection;
 	unsigned _req_next_send_seq, _req_next_receive_seq;
-	unsigned _resend_upto; // highest inbound MsgSeqNum seen while our resend request is outstanding
+	unsigned _resend_upto; // inbound MsgSeqNum that revealed the gap our outstanding resend request asks for
 	SessionID _sid;
 	struct SessionConfig *_sf;
 
